@@ -1,6 +1,7 @@
 package main
 
 import (
+	"context"
 	"errors"
 	"fmt"
 	"math/rand"
@@ -189,6 +190,9 @@ func genC13(rng *rand.Rand) *c13Scenario {
 		k := rng.Intn(nl)
 		t3 = append([]c13Op{{"lclose", k}, {"relisten", k}, {"lclose", k}}, t3...)
 	}
+	if rng.Intn(6) == 0 { // "context done, then the deferred Shutdown()"
+		t3 = append([]c13Op{{"pcancel", 0}}, t3...)
+	}
 	if nd > 0 && rng.Intn(3) > 0 { // let connections arrive first, so that Shutdown overlaps accept / activation / reads
 		t3 = append([]c13Op{{"waitdial", 1 + rng.Intn(nd)}}, t3...)
 	}
@@ -208,7 +212,10 @@ func runC13Scenario(sc *c13Scenario, strat rt.Strategy) *rt.Controller {
 	netty.NvRT = c
 	defer func() { netty.NvRT = nil }()
 	f := &mockFactory{c: c, accs: map[int]*mockAcceptor{}, syncRet: map[int]bool{}, refuse: map[int]int{}}
+	parent, parentCancel := context.WithCancel(context.Background())
+	defer parentCancel()
 	bs := netty.NewBootstrap(
+		netty.WithContext(parent),
 		netty.WithTransport(f),
 		netty.WithExecutor(ctlExec{c}),
 		netty.WithChannel(netty.NewChannel()),
@@ -321,6 +328,9 @@ func runC13Scenario(sc *c13Scenario, strat rt.Strategy) *rt.Controller {
 					if l := listeners[op.k]; l != nil {
 						l.Close()
 					}
+				case "pcancel": // the context the bootstrap was created with ends (the application is going down); Shutdown follows
+					c.Emit("pcancel")
+					parentCancel()
 				case "shutdown":
 					escaped := false
 					func() {
